@@ -34,6 +34,25 @@ def normal_origin(origin: str) -> str:
     fn, kind, text = [x.strip() for x in origin.split("|", 2)]
     if fn.startswith("reuse.vcs.VCSStrategy"):
         fn = "reuse.vcs.VCSStrategy*." + ("find_root" if fn.endswith("find_root") else "_find_*")
+    # the construct is named by what is called / raised, not by how its operands are spelled
+    if kind == "lib":
+        m = re.search(r"(\w+)\((?:[^()]|\([^()]*\))*\)\s*$", text)
+        try:
+            node = ast.parse(text, mode="eval").body
+            if isinstance(node, ast.Call):
+                text = (node.func.attr if isinstance(node.func, ast.Attribute) else ast.unparse(node.func)) + "(…)"
+            elif m:
+                text = m.group(1) + "(…)"
+        except SyntaxError:
+            m2 = re.match(r"\s*([\w.]+)\(", text)  # a truncated call text
+            if m:
+                text = m.group(1) + "(…)"
+            elif m2:
+                text = m2.group(1).split(".")[-1] + "(…)"
+    elif kind == "raise":
+        m = re.match(r"raise\s+([\w.]+)", text)
+        if m:
+            text = "raise " + m.group(1)
     return f"{fn} | {kind} | {text}"
 
 
